@@ -222,8 +222,45 @@ fn verb_primary(v: &str) -> u32 {
     }
 }
 
+/// a reply split over several lines (353 per channel, 319 per nick) counts as one: how many names go on a
+/// line is the server's choice
+fn merge_chunks(lines: &mut Vec<String>) {
+    let mut i = 0;
+    while i < lines.len() {
+        let head: Option<String> = {
+            let w: Vec<&str> = lines[i].split(' ').collect();
+            match w.get(0).copied() {
+                Some("353") if w.len() >= 3 => Some(format!("353 {} {}", w[1], w[2])),
+                Some("319") if w.len() >= 2 => Some(format!("319 {}", w[1])),
+                _ => None,
+            }
+        };
+        if let Some(h) = head {
+            let mut j = i + 1;
+            while j < lines.len() {
+                let same_head = lines[j].starts_with(&format!("{} ", h)) || lines[j] == h;
+                let mut items: Vec<String> = lines[i][h.len()..].split(' ').filter(|x| !x.is_empty()).map(|x| x.to_string()).collect();
+                // chunks of one reply never repeat a name; a repeated name means a second, separate reply
+                let disjoint = same_head && !lines[j][h.len()..].split(' ').filter(|x| !x.is_empty()).any(|x| items.iter().any(|y| y == x));
+                if same_head && disjoint {
+                    let extra = lines.remove(j);
+                    items.extend(extra[h.len()..].split(' ').filter(|x| !x.is_empty()).map(|x| x.to_string()));
+                    items.sort();
+                    lines[i] = format!("{} {}", h, items.join(" "));
+                } else {
+                    j += 1;
+                }
+            }
+        }
+        i += 1;
+    }
+}
+
 pub(crate) fn match_step(exps: &[TExp], obs_canon: &mut Vec<Vec<String>>) -> Vec<Disc> {
     let mut discs: Vec<Disc> = vec![];
+    for v in obs_canon.iter_mut() {
+        merge_chunks(v);
+    }
     let mut missing: Vec<(usize, TExp, String)> = vec![];
     let mut seen_atleast: Vec<(usize, String)> = vec![];
     // 1. exact
@@ -291,6 +328,13 @@ pub(crate) fn match_step(exps: &[TExp], obs_canon: &mut Vec<Vec<String>>) -> Vec
                             missing.push((*c, te.clone(), format!("{} {:?}", head, required)));
                         }
                     }
+                }
+            }
+            Exp::OnePrefix { c, prefix } => {
+                if let Some(pos) = obs_canon[*c].iter().position(|l| l.starts_with(prefix.as_str())) {
+                    obs_canon[*c].remove(pos);
+                } else {
+                    missing.push((*c, te.clone(), format!("{}...", prefix)));
                 }
             }
             Exp::AnyOf { c, options } => {
